@@ -19,7 +19,7 @@ ALLKINDS = ['add', 'remove', 'replace', 'move', 'copy', 'test']
 
 
 def run_A(ctx, module, name, consts, invariants=(), properties=(), simulate=None, timeout=3000, respell=False,
-          extra_opt='', exhaustive=True, spec='MCSpec', workers=16, constraint=None, legacy=False):
+          extra_opt='', exhaustive=True, spec='MCSpec', workers=16, constraint=None, legacy=False, rworkers=None, race=False):
     """Direction A: TLC enumerates (or simulates) behaviours of <module>, every printed transition is replayed."""
     cfg = ctx.write_cfg('run_' + name, spec, consts, invariants=invariants,
                         properties=() if simulate else properties, action_constraint='Emit', constraint=constraint)
@@ -31,20 +31,36 @@ def run_A(ctx, module, name, consts, invariants=(), properties=(), simulate=None
     if not exhaustive:
         ctx.exhaustive = False
     tlc = ctx.tlc_cmd(module, cfg, workers=workers, extra=extra)
-    replay = ctx.build('replay', legacy=legacy)
+    replay = ctx.build('replay', legacy=legacy, race=race)
     tlclog = os.path.join(ctx.scratch, 'tlc_%s.log' % name)
     rargs = [replay, '-prop', ctx.prop, '-seed', str(ctx.seed), '-findings', FINDINGS, '-replays', REPLAYS, '-tlclog', tlclog]
     if respell:
         rargs.append('-respell')
     if extra_opt:
         rargs += ['-opt', extra_opt]
+    if rworkers:
+        rargs += ['-workers', str(rworkers)]
+    renv = dict(ctx.env, GORACE='halt_on_error=1 exitcode=66') if race else ctx.env
     t0 = time.time()
     p1 = subprocess.Popen(['timeout', str(timeout)] + tlc, cwd=ctx.specdir(), env=ctx.env,
                           stdout=subprocess.PIPE, stderr=subprocess.STDOUT)
-    p2 = subprocess.Popen(rargs, stdin=p1.stdout, stdout=subprocess.PIPE, stderr=subprocess.PIPE, text=True, env=ctx.env)
+    p2 = subprocess.Popen(rargs, stdin=p1.stdout, stdout=subprocess.PIPE, stderr=subprocess.PIPE, text=True, env=renv)
     p1.stdout.close()
     out, err = p2.communicate()
     rc1 = p1.wait()
+    if p2.returncode == 66 and race:
+        # the Go race detector observed a data race in the real execution: that IS the violation of C10
+        os.makedirs(REPLAYS, exist_ok=True)
+        path = os.path.join(REPLAYS, '%s-race-%s-%d.json' % (ctx.prop, name, ctx.seed))
+        json.dump({'property': ctx.prop, 'kind': 'data-race', 'detail': 'the Go race detector reported a data race',
+                   'case': {'stage': name, 'module': module, 'constants': consts, 'seed': ctx.seed, 'race_report': err[-6000:]}},
+                  open(path, 'w'), indent=1)
+        print('VIOLATION property=%s replay=%s' % (ctx.prop, path))
+        print('  kind=data-race ' + (err.strip().split('\n')[0] if err.strip() else ''))
+        ctx.violations += 1
+        ctx.cov['stages'].append({'stage': name, 'data_race': True})
+        p1.kill()
+        return
     if p2.returncode not in (0, 1, 3):
         raise Broken('stage %s: replayer failed (exit %d): %s' % (name, p2.returncode, err[-2000:]))
     log = open(tlclog).read() if os.path.exists(tlclog) else ''
@@ -417,6 +433,50 @@ PLANS.update({
         'assumptions': ['patch application inside the command is Patch6902 under the default options', 'files are regular files in a scratch directory'],
         'required_labels': {'quick': ['Cli_exit0_files3', 'Cli_exit1_files3', 'Cli_exit0_files0', 'Cli_exit1_files1'],
                             'thorough': ['Cli_exit0_files4', 'Cli_exit1_files4', 'Cli_exit0_files0']},
+    },
+})
+
+
+def A_history(name, maxcalls, procs, callset, **kw):
+    def run(ctx):
+        consts = {'MaxCalls': maxcalls, 'Procs': procs, 'CallSet': '"%s"' % callset, 'EmitOn': 'TRUE'}
+        run_A(ctx, 'History', name, consts, invariants=('InputsUnchanged', 'ResultIsFunctionOfCall'), spec='HSpec', **kw)
+    return run
+
+
+HIST_ASSUME = [
+    'call universe of spec/History.tla: 5 document buffers (one malformed), 6 RFC 6902 patches decoded ONCE and shared by every call of the '
+    'run (one malformed, two failing), 4 merge patches (one malformed), two option sets; small = 20 calls, full = ~110 calls',
+    'buffers carry 48 bytes of spare capacity filled with a pattern: a write into contents or spare capacity is detected',
+]
+PLANS.update({
+    'C09': {
+        'quick': [A_history('h3', 3, 1, 'small', rworkers=1), A_history('h2f', 2, 1, 'full', rworkers=1)],
+        'thorough': [A_history('h4', 4, 1, 'small', rworkers=1, timeout=9000), A_history('h3f', 3, 1, 'full', rworkers=1, timeout=9000)],
+        'rule': 'TLC enumerates ALL histories of the stated length over the call universe (any order, any multiplicity, failing and malformed '
+                'calls in between) and assigns to every call the result its arguments determine (PatchOps/Merge7396/Equal); the replayer runs '
+                'every history in ONE process and one goroutine without resetting anything, over the same buffers and the same decoded Patch '
+                'values for the whole run; after every call: result = the determined result, bytes identical to the first occurrence of the '
+                'identical call anywhere in the run (Apply, ApplyIndent, CreateMergePatch, Equal; value for the merge functions), every '
+                'buffer byte-identical to its snapshot, every shared Patch deep-identical (member set, *RawMessage identity and bytes); '
+                'distinct_nontrivial counts distinct histories',
+        'exhaustive': True, 'assumptions': HIST_ASSUME,
+        'required_labels': {t: ['Call_Apply', 'Call_ApplyIndent', 'Call_DecodePatch', 'Call_MergePatch', 'Call_MergeMergePatches',
+                                'Call_CreateMergePatch', 'Call_Equal'] for t in ('quick', 'thorough')},
+    },
+    'C10': {
+        'quick': [A_history('c2x3', 3, 2, 'small', race=True)],
+        'thorough': [A_history('c3x3', 3, 3, 'small', race=True, timeout=9000), A_history('c2x4', 4, 2, 'small', race=True, timeout=9000),
+                     A_history('c2x2f', 2, 2, 'full', race=True, timeout=9000)],
+        'rule': 'TLC enumerates every assignment of calls to 2 (quick) / 3 processes and every interleaving at call granularity (the contract '
+                'makes each call one atomic step); for every such line the replayer starts one goroutine per process, free-running, over the '
+                'shared buffers and the shared decoded Patch values, 16 lines in flight at once, in a binary built with the Go race detector '
+                '(halt_on_error): every call must return the result its arguments determine (bytes equal to the first sequential/concurrent '
+                'occurrence) and the race detector must stay silent; a race report is the violation; distinct_nontrivial counts lines',
+        'exhaustive': True,
+        'assumptions': HIST_ASSUME + ['absence of a race report is evidence, not proof: the race detector observes the schedules that happened; '
+                                      'the specification supplies workloads and expected results (DESIGN.md section 8)'],
+        'required_labels': {t: ['Call_Apply', 'Call_MergePatch', 'Call_CreateMergePatch', 'Call_Equal'] for t in ('quick', 'thorough')},
     },
 })
 
